@@ -151,13 +151,19 @@ func init() {
 	regImpl("c14.fieldsep", func(a []string) string { return fieldSeps(a, false) })
 	regImpl("c14.fieldsubsep", func(a []string) string { return fieldSeps(a, true) })
 
-	// what protogen records for confgen vs what protogen itself used
+	// what protogen records for confgen (global header merged with the metasheet '#' row)
 	regStream("corr.protogen.record", func(r *rand.Rand, n int, emit func(string, ...string)) {
 		for i := 0; i < n; i++ {
 			s := genLevel(r, 10, r.Intn(256))
-			bm := genLevel(r, 20, 0) // no book-level ('#') row: the partial theorem's class
+			bm := genLevel(r, 20, r.Intn(256))
 			g := genLevel(r, 30, r.Intn(256))
-			args := append(append([]string{}, s.args()...), "0")
+			args := append([]string{}, s.args()...)
+			if r.Intn(3) != 0 {
+				args = append(args, "1")
+			} else {
+				args = append(args, "0")
+				bm = level{}
+			}
 			args = append(args, bm.args()...)
 			if r.Intn(4) != 0 {
 				args = append(args, "1")
@@ -170,12 +176,17 @@ func init() {
 	})
 	regImpl("c14.record", func(a []string) string {
 		s := decLevel(a[0:8])
+		bm := decLevel(a[9:17])
 		g := decLevel(a[18:26])
 		var gp *options.HeaderOption
 		if a[17] == "1" {
 			gp = g.global()
 		}
-		rb := verifhook.RecordedBookOptions(gp)
+		var bp *tableaupb.WorkbookOptions
+		if a[8] == "1" {
+			bp = bm.book()
+		}
+		rb := verifhook.RecordedBookOptions(gp, bp)
 		enc := func(l level) string {
 			return fmt.Sprintf("%d %d %d %d %d %d %s %s", l.nr, l.tr, l.nor, l.dr, l.nl, l.tl, encStr(l.sep), encStr(l.subsep))
 		}
